@@ -16,9 +16,14 @@ CHECKS = {
     },
     "C02": {
         "level": "fault_enumeration",
-        "quick": {"shards": 16, "rounds": 1, "checks": 100, "timeout": 900},
-        "thorough": {"shards": 16, "rounds": 4, "checks": 500, "timeout": 3000},
-        "assumptions": [],
+        "quick": {"shards": 16, "rounds": 1, "checks": 500, "timeout": 900},
+        "thorough": {"shards": 16, "rounds": 4, "checks": 1500, "timeout": 3000, "env": {"VERIF_EXH_PROGRAMS": "10"}},
+        "exhaustive_subspace": "TestPropExhaustive: every (hook site, n-th hit) crash point of each generated single-round program of 3-15 steps (counters exhaustive_programs / exhaustive_crash_points); the sampled part (TestProp) is not exhaustive",
+        "assumptions": [
+            "a crash is process death at a named hook site (os.Exit in a child, no deferred functions, no buffered-writer flush): bytes handed to write(2) survive, user-space buffers do not; fsync and torn sectors are outside this model",
+            "database directories live on tmpfs",
+            "the background flush goroutine is quiesced between steps, so hook hit counts of a program are reproducible",
+        ],
     },
     "C03": {
         "level": "fault_enumeration",
@@ -58,9 +63,13 @@ CHECKS = {
     },
     "C09": {
         "level": "exploration",
-        "quick": {"shards": 16, "rounds": 1, "checks": 100, "timeout": 900},
-        "thorough": {"shards": 16, "rounds": 4, "checks": 500, "timeout": 3000},
-        "assumptions": [],
+        "quick": {"shards": 16, "rounds": 1, "checks": 2500, "timeout": 900},
+        "thorough": {"shards": 16, "rounds": 10, "checks": 3000, "timeout": 3000},
+        "assumptions": [
+            "log written through the pkg/wal API by one goroutine, no I/O faults, no damage (damage is C10)",
+            "rotation hands the sequence counter over (UpdateNextSequence), the intended regime of unique growing numbers",
+            "log file names come from the wall clock: a case in which the clock does not advance between two files is abandoned and counted",
+        ],
     },
     "C10": {
         "level": "fault_enumeration",
